@@ -129,14 +129,29 @@ fn load_graph(
     // Map of model node index to graph node ID
     let mut node_id_from_index: HashMap<usize, NodeId> = HashMap::with_capacity(node_count);
 
-    let input_ids: Vec<NodeId> = serialized_graph
+    // Node IDs are indices into the graph's list of nodes.
+    let node_ids = |ids: flatbuffers::Vector<u32>, kind: &str| -> Result<Vec<NodeId>, LoadError> {
+        ids.iter()
+            .map(|id| {
+                if id.as_usize() < node_count {
+                    Ok(NodeId::from_u32(id))
+                } else {
+                    Err(load_error!(GraphError, None, "graph {} ID {} is invalid", kind, id))
+                }
+            })
+            .collect()
+    };
+
+    let input_ids = serialized_graph
         .inputs()
-        .map(|ids| ids.iter().map(NodeId::from_u32).collect())
+        .map(|ids| node_ids(ids, "input"))
+        .transpose()?
         .unwrap_or_default();
 
-    let output_ids: Vec<NodeId> = serialized_graph
+    let output_ids = serialized_graph
         .outputs()
-        .map(|ids| ids.iter().map(NodeId::from_u32).collect())
+        .map(|ids| node_ids(ids, "output"))
+        .transpose()?
         .unwrap_or_default();
 
     let mut graph = Graph::with_capacity(node_count);
@@ -144,7 +159,7 @@ fn load_graph(
     graph.set_output_ids(&output_ids);
 
     if let Some(captures) = serialized_graph.captures() {
-        let captures: Vec<NodeId> = captures.iter().map(NodeId::from_u32).collect();
+        let captures = node_ids(captures, "capture")?;
         graph.set_captures(&captures);
     }
 
